@@ -37,13 +37,20 @@ func Point(name string, a, b, c int64) {
 // reused for another object while a monitor still remembers it.
 var pinned sync.Map
 
-// Ptr returns the identity of a pointer-typed value.
+// Ptr returns the identity of a pointer-typed value and pins the object (pooled objects, clients).
 func Ptr(p any) int64 {
 	addr := int64((*[2]uintptr)(unsafe.Pointer(&p))[1])
 	if _, ok := pinned.Load(addr); !ok {
 		pinned.Store(addr, p)
 	}
 	return addr
+}
+
+// Addr returns the address of a pointer-typed value without keeping the object alive: for objects
+// which no monitor remembers beyond the call (connections, channels). Pinning those would keep
+// every connection of a long run, with its buffers, in memory.
+func Addr(p any) int64 {
+	return int64((*[2]uintptr)(unsafe.Pointer(&p))[1])
 }
 
 // B converts a bool.
